@@ -33,6 +33,7 @@ EXPLANATION = (
     " (R4) write_setting hands the looked-up setting and the caller's value to _write_setting exactly once; write_setting('modbus-N', v) sends int(v) to register int(id[7:]) and read_setting('modbus-N') decodes it signed."
     ' read_setting(id) for a known id returns the awaited read of exactly that setting.'
     ' (R5, shared with C16.R1) the single read behind read_setting requests ceil(size_/2) registers at the setting and decodes the answer from its first byte.'
+    ' (R6) ES._read_setting / _write_setting build Modbus commands exactly on the paths where _is_modbus_setting(setting) is true and AA55 commands on the others.'
 )
 
 
@@ -213,6 +214,8 @@ def r4_known_ids(ctx: Ctx, rep: Report):
     from .c18 import _lookup_truth
     from ..replay import Replay
     prog = ctx.prog
+    rep.rule("C17.R6", "ES addresses a setting through the protocol its register belongs to, the same way when reading and when writing (Modbus iff _is_modbus_setting)", 2)
+    protocol_routing(ctx, rep, "C17.R6")
     rep.rule("C17.R5", "the read-back asks for exactly the setting's registers and decodes the answer from its first byte (shared with C16.R1)", 3)
     from .c16 import single_read_form
     single_read_form(ctx, rep, "C17.R5")
@@ -463,6 +466,49 @@ def _routing_consistent(ctx: Ctx, fn: FuncInfo, p) -> bool:
                 return False
             seen[k] = ev.data
     return True
+
+
+def protocol_routing(ctx: Ctx, rep: Report, rule: str):
+    """ES holds settings of two kinds: AA55 registers and Modbus registers (offset above 30000), told apart by
+    self._is_modbus_setting(setting).  On every path of ES._read_setting and ES._write_setting the commands built after
+    that test came out True are the Modbus factories (_read_command / _write_command / _write_multi_command) and after
+    False the Aa55* commands - the same way on the read and on the write side, so a setting is read back through the
+    protocol it was written through."""
+    prog = ctx.prog
+    es = prog.cls("ES")
+    if prog.find_method(es, "_is_modbus_setting") is None:
+        raise AnalysisError("ES._is_modbus_setting not found (anchor of the protocol routing rule)")
+    wire = ctx.memo("wire", lambda: Wire(ctx))
+    fam_of = lambda nm: "aa55" if nm.startswith("Aa55") else "modbus"
+    for mname in ("_read_setting", "_write_setting"):
+        fn = es.methods.get(mname)
+        if fn is None:
+            raise AnalysisError("ES.%s not found" % mname)
+        bad, n = None, 0
+        for p in enumerate_paths(prog, fn, no_raise):
+            if not (feasible(p) and _routing_consistent(ctx, fn, p)):
+                continue
+            pol = None
+            for i, ev in enumerate(p.events):
+                if ev.kind == "test" and isinstance(ev.node, ast.Call) and (call_chain(ev.node) or ("",))[-1] == "_is_modbus_setting":
+                    pol = ev.data
+                if ev.kind != "call":
+                    continue
+                k = wire.site_kind(p.fn_at(i, fn), ev.node)
+                if k is None:
+                    continue
+                n += 1
+                got = fam_of(k[1])
+                if pol is None:
+                    if bad is None:
+                        bad = (p, ev.node, "builds %s before asking self._is_modbus_setting" % norm(ev.node.func))
+                elif got != ("modbus" if pol else "aa55") and bad is None:
+                    bad = (p, ev.node, "builds the %s command %s for a setting that _is_modbus_setting reports as %s" % (got, norm(ev.node.func), "a Modbus register" if pol else "an AA55 register"))
+        if n == 0:
+            raise AnalysisError("ES.%s builds no command" % mname)
+        rep.check(bad is None, rule, "routing:ES.%s" % mname, fn.loc(bad[1]) if bad else fn.loc(),
+                  "ES.%s: Modbus commands exactly for the settings _is_modbus_setting reports as Modbus registers, AA55 commands for the others (%d construction sites on paths)" % (mname, n),
+                  bad="ES.%s %s: the register is addressed through the wrong protocol, what is read back is not what was written [path %s]" % (mname, bad[2] if bad else "", bad[0].describe(6) if bad else ""))
 
 
 # ----------------------------------------------------------------------- R2
